@@ -313,6 +313,16 @@ def layered_knowledge(n: int, dist: int = 1):
             if k not in seen:
                 seen.add(k)
                 yield k
+    # a whole size layer INSIDE a sub-universe of players: all s-subsets of U known, for every U with 3 <= |U| <= n (n <= 7)
+    if n <= 7:
+        for usize in range(3, n + 1):
+            for U in itertools.combinations(range(n), usize):
+                um = sum(1 << i for i in U)
+                for s in range(2, usize):
+                    k = base | kmask(c for c in ex if popcount(c) == s and c & ~um == 0)
+                    if k not in seen:
+                        seen.add(k)
+                        yield k
 
 
 @lru_cache(maxsize=None)
@@ -401,3 +411,30 @@ def distance2_knowledge(n: int, limit: int | None = None):
         k += 1
         if limit is not None and k >= limit:
             return
+
+
+@lru_cache(maxsize=None)
+def a5_any_rule() -> tuple:
+    """A5-ANY(r): 5-player games of NO particular class, defined by a fixed arithmetic rule (reproducible, tie-heavy, half-integers):
+    singletons 1, v(N) = 10 or 12, v(S) = |S| + ((7*id + 13*k) mod 5)/2 - 1 for k = 0..11. Most are not superadditive."""
+    out = []
+    for k in range(12):
+        v = [0.0] * 32
+        for s in range(1, 32):
+            c = popcount(s)
+            if c == 1:
+                v[s] = 1.0
+            elif c == 5:
+                v[s] = 10.0 if k % 2 == 0 else 12.0
+            else:
+                v[s] = c + ((7 * s + 13 * k) % 5) / 2 - 1
+        out.append(tuple(v))
+    # the textbook shape: everything worth its size except a family of deficient triples
+    for deficient in (2.5, 2.0):
+        v = [float(popcount(s)) for s in range(32)]
+        v[31] = 10.0
+        for s in range(32):
+            if popcount(s) == 3 and not s & 0b10000:
+                v[s] = deficient
+        out.append(tuple(v))
+    return tuple(out)
